@@ -70,7 +70,18 @@ Fixpoint exception_names (fs : list redirect_rule) : list str :=
       else exception_names r
   end.
 
-(* second loop; [cur] = resource_and_priority *)
+(* `<` on &str: bytewise lexicographic *)
+Fixpoint str_leb (a b : str) : bool :=
+  match a, b with
+  | [], _ => true
+  | _ :: _, [] => false
+  | x :: a', y :: b' => if N.ltb x y then true else if N.eqb x y then str_leb a' b' else false
+  end.
+Definition str_ltb (a b : str) : bool := negb (str_leb b a).
+
+(* second loop; [cur] = resource_and_priority.  Since /repo 8ebf406 an offer replaces the current
+   one when its priority is higher, or equal and its resource name sorts first: the choice no longer
+   depends on the order in which the matching rules are delivered. *)
 Fixpoint pick_loop (exceptions : list str) (fs : list redirect_rule) (cur : option (str * Z))
   : option (str * Z) :=
   match fs with
@@ -83,8 +94,9 @@ Fixpoint pick_loop (exceptions : list str) (fs : list redirect_rule) (cur : opti
           let rp := split_redirect_priority s in
           if mem_str (fst rp) exceptions then pick_loop exceptions r cur else
           match cur with
-          | Some (_, p1) => if (snd rp >? p1)%Z then pick_loop exceptions r (Some rp)
-                            else pick_loop exceptions r cur
+          | Some (r1, p1) => if (snd rp >? p1)%Z || ((snd rp =? p1)%Z && str_ltb (fst rp) r1)
+                             then pick_loop exceptions r (Some rp)
+                             else pick_loop exceptions r cur
           | None => pick_loop exceptions r (Some rp)
           end
       end
